@@ -49,6 +49,39 @@ type Caps struct {
 	// PreSet lists gated private modes that are already set when the
 	// application starts (DECRQM then answers Ps=1 instead of 2).
 	PreSet map[int]bool
+	// HexCase: letter case of the hexadecimal digits in the terminal's XTGETTCAP and tertiary-DA replies
+	// (a terminal decodes the requested name and encodes its answer itself): 0 = upper case (default),
+	// 1 = lower case, 2 = mixed. Hexadecimal notation has no case.
+	HexCase int
+}
+
+// reName: the capability name in a reply: the request's own bytes by default, re-encoded otherwise.
+func (c Caps) reName(asked, name string) string {
+	if c.HexCase == 0 {
+		return asked
+	}
+	return c.hex(name)
+}
+
+// hex encodes s as the terminal writes hexadecimal strings.
+func (c Caps) hex(s string) string {
+	h := hexs(s)
+	switch c.HexCase {
+	case 1:
+		return strings.ToLower(h)
+	case 2:
+		b, n := []byte(h), 0
+		for i, ch := range b {
+			if ch >= 'A' && ch <= 'F' {
+				if n%2 == 0 {
+					b[i] = ch + 'a' - 'A'
+				}
+				n++
+			}
+		}
+		return string(b)
+	}
+	return h
 }
 
 // Names lists the 15 independent advertised features in a fixed order.
@@ -208,7 +241,7 @@ func (r *Responder) handle(t lexer.Token) {
 		case t.B == 'c' && t.Priv == "=":
 			r.Queries = append(r.Queries, "da3")
 			if c.VTE {
-				r.send("\x1bP!|" + hexs("~VTE") + "\x1b\\")
+				r.send("\x1bP!|" + c.hex("~VTE") + "\x1b\\")
 			} else if c.RepliesUnsupported {
 				r.send("\x1bP!|00000000\x1b\\")
 			}
@@ -269,10 +302,10 @@ func (r *Responder) handle(t lexer.Token) {
 			name := t.S[2:]
 			r.Queries = append(r.Queries, "xtgettcap:"+name)
 			switch {
-			case name == hexs("RGB") && c.RGB:
-				r.send("\x1bP1+r" + name + "=" + hexs("8/8/8") + "\x1b\\")
-			case name == hexs("Smulx") && c.Smulx:
-				r.send("\x1bP1+r" + name + "=" + hexs("\\E[4:%p1%dm") + "\x1b\\")
+			case strings.EqualFold(name, hexs("RGB")) && c.RGB:
+				r.send("\x1bP1+r" + c.reName(name, "RGB") + "=" + c.hex("8/8/8") + "\x1b\\")
+			case strings.EqualFold(name, hexs("Smulx")) && c.Smulx:
+				r.send("\x1bP1+r" + c.reName(name, "Smulx") + "=" + c.hex("\\E[4:%p1%dm") + "\x1b\\")
 			default:
 				if c.RepliesUnsupported {
 					r.send("\x1bP0+r\x1b\\")
